@@ -96,7 +96,7 @@ CHECKS = {
        "the subject of ro_fill_not_atomic_stale, not driven by the harness); the correspondence runs "
        "single-session programs on tables without secondary indexes (the in-tx index view is finding R1); pkg/server/sessions/internal/transactions is a Go internal package "
        "(not importable) and the PostgreSQL wire front-end is not driven. the clone model covers the containers of Table (the scalar fields of the Column / Index objects are copied by value: literal facts). "
-       "Known signatures for root causes R1, R2, R4, R5 (K1), R6/R6b/R6c, R7, R8, R9, R14–R23 (known_findings.json).",
+       "Known signatures for root causes R1, R2, R4, R5 (K1), R6/R6b/R6c, R7, R8, R9, R14–R21, R23 (known_findings.json); R22 (DROP / TRUNCATE TABLE with a CHECK failed) and R24 (DROP INDEX left the per-column index lists of the running transaction wrong) are repaired, their signatures stay armed and both are driven by the matrix in every run.",
   technique="Lean 4 proof (case analysis on the transaction interpreter, simulation against the reference interpreter, concrete witnesses by decide) + differential correspondence + reference-interpreter oracle",
   design="7/C13"),
  "C12": dict(
@@ -132,7 +132,7 @@ CHECKS = {
        "correspondence; that behaviour is finding R1), DEFAULT values, JSON, FOREIGN KEY, ALTER TABLE, implicit INTEGER->FLOAT conversion; the concurrent-session model covers statements addressed by primary key with every row / unique tuple written once per transaction "
        "(the early `return nil` of checkPreconditions and non-default snapshot options are C05's), duplicate freedom of every reachable store is NOT proved (false in general: R2) "
        "— the harness checks it; the schema history of Sql/CatalogDml.lean is an abstract function generation -> Schema (one table; what DDL does to the catalog is the harness reference's business), "
-       "the catalog-cache model is the C13 one (NewTx is one step; the read-only fill race ro_fill_not_atomic_stale is outside). Known signatures for root causes R1, R2, R3, R4, R9, R13, R18 (SET NOT NULL not persisted), R19 (DROP TABLE with CHECK fails) (known_findings.json).",
+       "the catalog-cache model is the C13 one (NewTx is one step; the read-only fill race ro_fill_not_atomic_stale is outside). Known signatures for root causes R1, R2, R3, R4, R9, R13, R18 (SET NOT NULL not persisted) (known_findings.json); R19 (DROP TABLE of a table with a CHECK failed) is repaired, its signature stays armed and the case is probed in every run.",
   technique="Lean 4 proof (invariant preservation by induction over the statement interpreter; concrete witnesses by kernel evaluation) + differential correspondence + invariant checking after every commit",
   design="7/C12"),
  "C11": dict(
